@@ -199,9 +199,25 @@ def run(tier, seed):
             for body in bodies:
                 rec.case("nested-populate", (depth, spec_key(zspec), spec_key(aspec), tuple(body)))
                 nested_populate(rec, "nested-populate", depth, n, zspec, aspec, body)
+    # at scale: wider trees (8-16 coordinates per rank): constructors/transforms and short histories
+    uni_w = {}
+    for _ in range(30 if tier == "quick" else 400):
+        if rec.out_of_time():
+            break
+        n = rnd.choice([8, 16])
+        spec = random_spec(rnd, 2, n, p_present=rnd.choice([0.3, 0.7]))
+        kind = rnd.choice(KINDS)
+        ops = []
+        if kind in SAME_SHAPE:
+            if n not in uni_w:
+                uni_w[n] = op_universe(2, n)
+            ops = [rnd.choice(uni_w[n]) for _q in range(3)]
+        rec.case("scale", (kind, spec_key(spec), repr(ops)))
+        check_history(rec, "scale", kind, 2, n, spec, ops)
     return rec.result("every constructor/transform family on every depth-2 tree over 2 coordinates (explicit defaults, empty sub-fibers); every "
                       "op of the universe on each; seeded random histories at depth 2-3; nested populate loops over all depth-2 pairs and sampled "
-                      "depth-3 pairs with 7 body patterns; RB recomputed by an independent DFS after every step and at every yield")
+                      "depth-3 pairs with 7 body patterns; plus seeded random wider trees at scale (8-16 coordinates per rank); RB recomputed by an independent "
+                      "DFS after every step and at every yield")
 
 
 def replay(case):
